@@ -664,9 +664,12 @@ def _verdict(ob, res, rec, sym_ok):
             continue
         clean = all(c["proved"] == c["paths"] for c in labels.values())
         if sym_ok and clean and l in labels:
-            # every symbolic path ended in proved checks, yet the real code fails this one natively: the engine (or a model) is wrong
-            res["crash"] = f"engine-unsound: {l} proved symbolically but fails natively on {f['inputs']}"
-            return "crash"
+            # every symbolic path ended in proved checks, yet the REAL code fails this one on a concrete input: the failing input is
+            # a genuine counterexample (reported as such); it also shows that the symbolic model is imprecise for this code (e.g. state
+            # shared between calls through a library object the model treats as fresh) -- noted, so that the proof is not trusted here
+            res["engine_note"] = f"{l}: proved symbolically but the real code fails natively: symbolic model imprecise for this code"
+            violated.append((l, f["inputs"], "native-counterexample (contradicts the symbolic result: model imprecise here)"))
+            continue
         violated.append((l, f["inputs"], "bounded-native-search"))
     res["violated"] = [{"label": l, "inputs": i, "how": h} for l, i, h in violated]
     if ob.expect == "refuted":
@@ -809,7 +812,8 @@ def run_property(reg, tier="quick", seed=0, jobs=None, only=None, level="proof",
                     known.append((r["name"], viol, k))
                 else:
                     violations.append((r["name"], viol, r))
-            n_dis += sum(1 for l, c in r["labels"].items() if c["proved"] == c["paths"])
+            bad = {viol["label"] for viol in r.get("violated", [])}
+            n_dis += sum(1 for l, c in r["labels"].items() if c["proved"] == c["paths"] and l not in bad)
             # obligations that are listed known findings are reported separately, not counted as proof obligations
             n_obl -= sum(1 for viol in r.get("violated", []) if _match_known(kf, prop, r["name"], viol["label"], viol["inputs"]) is not None)
         elif v == "undecided":
